@@ -249,6 +249,8 @@ theorem foreign_step (cfg : Cfg) (hc : cfg.gCount = 3) (D : String) (s : St) (op
       | false => exact SameIn.refl D s
       | true =>
         simp only [Bool.not_true, Bool.false_eq_true, ↓reduceIte]
+        split
+        · exact SameIn.refl D s
         have hf := finish_part cfg hc D (persist cfg { s with pol := s.pol.set sec l } (.addPolicy sec r)
           (exOnly cfg (.forAddPolicy sec r))) sec true [r] (.bool true)
           (fun e x hx => by simp at hx; subst hx; subst e; exact hop)
@@ -267,6 +269,8 @@ theorem foreign_step (cfg : Cfg) (hc : cfg.gCount = 3) (D : String) (s : St) (op
       | false => exact SameIn.refl D s
       | true =>
         simp only [Bool.not_true, Bool.false_eq_true, ↓reduceIte]
+        split
+        · exact SameIn.refl D s
         have hf := finish_part cfg hc D (persist cfg { s with pol := s.pol.set sec l } (.addPolicies sec rs)
           (exOnly cfg (.forAddPolicies sec rs))) sec true rs (.bool true)
           (fun e x hx => by subst e; exact hop x hx)
